@@ -130,7 +130,7 @@ class AlarmTime:
         if self._snooze_until is not None and self._snooze_until > acknowledged:
             return True
         trigger = self.trigger
-        if trigger.tzinfo is None:
+        if getattr(trigger, "tzinfo", None) is None:
             raise LocalTimezoneMissing(
                 "A local timezone is required to check if the alarm is still active. "
                 "Use Alarms.set_local_timezone()."
